@@ -866,7 +866,7 @@ def standalone(cls, rng):
 
 
 MUTATIONS = ["deldata", "noid", "reftime", "strdata", "mask", "allmask", "size1", "scalar", "npprop", "noaxes", "delaxes",
-             "unsized", "ncnames", "fill"]
+             "unsized", "ncnames", "fill", "bigtime"]
 
 
 def mutate(x, mut, rng):
@@ -889,6 +889,19 @@ def mutate(x, mut, rng):
                 x.set_property("units", rng.choice(["days since 2001-02-03", "seconds since 1970-01-01T00:00:00Z"]))
                 if rng.random() < 0.7:
                     x.set_property("calendar", rng.choice(["360_day", "noleap", "gregorian"]))
+        elif mut == "bigtime" and not isfd and (isinstance(x, C.Data) or (hasattr(x, "has_data") and x.has_data())):
+            # reference-time data with a displayed element (first / second / last) that no calendar can convert:
+            # an unmasked default fill value (what read(mask=False) yields), or simply a huge number
+            d = x if isinstance(x, C.Data) else x.data
+            if d.dtype.kind == "f" and d.size:
+                arr = np.ma.array(d.array, copy=True)
+                pos = rng.choice([0, -1, 1 if arr.size > 1 else 0])
+                arr.flat[pos] = rng.choice([1e20, 9.969209968386869e36, -1e30])
+                nd = C.Data(arr, units="days since 2001-02-03", calendar=rng.choice([None, "noleap"]))
+                if isinstance(x, C.Data):
+                    return nd
+                x.set_property("units", "days since 2001-02-03")
+                x.set_data(nd)
         elif mut in ("strdata", "mask", "allmask") and (isinstance(x, C.Data) or (hasattr(x, "has_data") and x.has_data())):
             d = x if isinstance(x, C.Data) else x.data
             arr = np.ma.asanyarray(d.array)
